@@ -60,6 +60,7 @@ type Prog struct {
 	stableFa          map[string]int
 	closesUnder       map[string][]guardedField
 	finalFa           map[string]bool     // fa function of a field declared final
+	mayLockCache      map[*ssa.Function]bool
 	FinalChecks       []*FinalCheck       // one per declared final field
 	ContractFilesUsed []string
 	MirrorUsed        []string
